@@ -22,6 +22,10 @@ class InvalidSyntax(IkeSaError):
     pass
 
 
+class MissingEncryptedPayload(InvalidSyntax):
+    pass
+
+
 class UnsupportedCriticalPayload(IkeSaError):
     pass
 
@@ -950,6 +954,10 @@ class Message:
                 message.iv, decrypted_data = payload_sk.decrypt(crypto)
                 message.encrypted_payloads = cls._parse_payloads(decrypted_data, payload_sk.next_payload_type)
                 message.is_protected = True
+            # with keys, only IKE_SA_INIT messages travel in the clear: anything else must end in an encrypted payload,
+            # otherwise a modified header (e.g. another first payload type) would turn it into an accepted cleartext message
+            elif crypto is not None and message.exchange_type != Message.Exchange.IKE_SA_INIT:
+                raise MissingEncryptedPayload('Message without an encrypted payload in an exchange that must be protected')
 
         return message
 
